@@ -12,7 +12,8 @@
    arithmetic of Duration/Time is the one of Time/TimeModel.v.
 
    Part 2 (worker level) is the body of one loop iteration for one participant with
-   user-defined writers (check_missed_writer_deadline, remove_stale_writer_samples,
+   user-defined writers and readers (check_missed_reader_deadline,
+   check_missed_writer_deadline, remove_stale_writer_samples,
    announce_participant_if_needed) and the timer-driven wake sequence, used by the
    whole-stack simulation tie. *)
 From DustDDS Require Export Base.Machine Time.TimeModel.
@@ -178,18 +179,29 @@ Record swriter : Type := mkSW {
   sw_changes : list dur;                (* source timestamps of the history, storage order *)
   sw_odm : Z                            (* offered_deadline_missed_status.total_count *)
 }.
+(* a reader: `instances` (InstanceState: handle, last_received_time_stamp — never removed)
+   and `instance_ownership` (handle, last_received_time — removed when the deadline is missed
+   or the instance is disposed; this is the list time_until_missed_reader_deadline looks at) *)
+Record sreader : Type := mkSR {
+  sr_deadline : option dur;
+  sr_insts : list (Z * dur);
+  sr_owned : list (Z * dur);
+  sr_rdm : Z                            (* requested_deadline_missed_status.total_count *)
+}.
 Record sstate : Type := mkSS {
   ss_now : Z;                           (* simulated clock, ns *)
   ss_wake : Z;                          (* absolute deadline of the timer the worker sleeps on *)
   ss_last_ann : option dur;
   ss_interval : dur;
-  ss_writers : list swriter
+  ss_writers : list swriter;
+  ss_readers : list sreader
 }.
 
 Definition snap_writer (w : swriter) : writer_s :=
   mkW (sw_deadline w) (map si_last (sw_insts w)) (sw_lifespan w) (map Some (sw_changes w)) None.
+Definition snap_reader (r : sreader) : reader_s := mkR (sr_deadline r) (map snd (sr_owned r)).
 Definition snap (s : sstate) : part_s :=
-  mkP true (ss_last_ann s) (ss_interval s) [] [] (map snap_writer (ss_writers s)).
+  mkP true (ss_last_ann s) (ss_interval s) [] (map snap_reader (ss_readers s)) (map snap_writer (ss_writers s)).
 
 (* discovery_methods.rs:372 check_missed_writer_deadline, one writer:
    `if now - *t > deadline { *t += deadline; missed }` — re-arms by ONE period *)
@@ -218,19 +230,33 @@ Definition remove_stale (now : dur) (w : swriter) : swriter :=
   | None => w
   end.
 
+(* discovery_methods.rs:245 check_missed_reader_deadline, one reader: every instance with
+   `now - last_received_time_stamp > deadline` is counted at EVERY call (nothing re-arms);
+   its instance_ownership entry is dropped *)
+Definition check_reader_deadline (now : dur) (r : sreader) : sreader :=
+  match sr_deadline r with
+  | Some dl =>
+      let missed := filter (fun i => dur_ltb dl (time_sub now (snd i))) (sr_insts r) in
+      mkSR (sr_deadline r) (sr_insts r)
+           (filter (fun o => negb (existsb (fun i => fst i =? fst o) missed)) (sr_owned r))
+           (sr_rdm r + Z.of_nat (length missed))
+  | None => r
+  end.
+
 (* the part of one loop iteration after the select: the checks at `now`, the announcement,
    then the next sleep is computed (the clock does not move in the simulation) *)
 Definition delay_floor (r : res Z) : Z := match r with Ok d => Z.max 1 d | _ => 1 end.
 Definition body (s : sstate) : sstate * res Z :=
   let now := time_of_ns (ss_now s) in
+  let rs := map (check_reader_deadline now) (ss_readers s) in
   let ws := map (fun w => remove_stale now (check_writer_deadline now w)) (ss_writers s) in
-  let s1 := mkSS (ss_now s) (ss_wake s) (ss_last_ann s) (ss_interval s) ws in
+  let s1 := mkSS (ss_now s) (ss_wake s) (ss_last_ann s) (ss_interval s) ws rs in
   let la := match tu_participant_announcement now (snap s1) with
             | Some d => if dur_eqb d dzero then Some now else ss_last_ann s
             | None => ss_last_ann s end in
-  let s2 := mkSS (ss_now s) (ss_wake s) la (ss_interval s) ws in
+  let s2 := mkSS (ss_now s) (ss_wake s) la (ss_interval s) ws rs in
   let d := requested_delay [snap s2] (same_now now) in
-  (mkSS (ss_now s) (ss_now s + delay_floor d) la (ss_interval s) ws, d).
+  (mkSS (ss_now s) (ss_now s + delay_floor d) la (ss_interval s) ws rs, d).
 
 Fixpoint bodies (k : nat) (s : sstate) : sstate * list (Z * res Z) :=
   match k with
@@ -266,21 +292,47 @@ Inductive sop : Type :=
 | SCreateW (dl ls : option Z)               (* create_datawriter, deadline / lifespan in ns *)
 | SWrite (w : nat) (key : Z) (ts : option Z) (* write / write_w_timestamp(ts ns) *)
 | SAdv (dt : Z)                              (* the clock advances, timers fire *)
+| SCreateR (dl : option Z)                  (* create_datareader with deadline *)
+| SRecv (r : nat) (keys : list Z)           (* `net`: samples for these keys reach reader r now *)
+| SScr (r : nat)                            (* reader status condition (REQUESTED_DEADLINE_MISSED only): trigger value *)
 | SOdm (w : nat)                             (* get_offered_deadline_missed_status *)
 | SQuery.                                    (* an API call that changes nothing *)
 
 Definition dur_of_ns (n : Z) : dur := dur_new (wrap_i32 (n / NS)) (wrap_u32 (n mod NS)).
 
+(* data_reader_entity.rs add_change (Alive sample, reception_timestamp = now):
+   InstanceState.update_state sets last_received_time_stamp; instance_ownership entry is
+   updated (`if last < now`) or pushed *)
+Fixpoint set_key (key : Z) (t : dur) (l : list (Z * dur)) : list (Z * dur) :=
+  match l with
+  | [] => [(key, t)]
+  | i :: r => if fst i =? key then (key, t) :: r else i :: set_key key t r
+  end.
+Fixpoint max_key (key : Z) (t : dur) (l : list (Z * dur)) : list (Z * dur) :=
+  match l with
+  | [] => [(key, t)]
+  | i :: r => if fst i =? key then (key, if dur_ltb (snd i) t then t else snd i) :: r else i :: max_key key t r
+  end.
+Definition recv_reader (now : dur) (keys : list Z) (r : sreader) : sreader :=
+  fold_left (fun r key => mkSR (sr_deadline r) (set_key key now (sr_insts r))
+                               (max_key key now (sr_owned r)) (sr_rdm r)) keys r.
+
 Definition apply_mail (o : sop) (s : sstate) : sstate :=
   match o with
   | SCreateW dl ls =>
       mkSS (ss_now s) (ss_wake s) (ss_last_ann s) (ss_interval s)
-           (ss_writers s ++ [mkSW (option_map dur_of_ns dl) (option_map dur_of_ns ls) [] [] 0])
+           (ss_writers s ++ [mkSW (option_map dur_of_ns dl) (option_map dur_of_ns ls) [] [] 0]) (ss_readers s)
+  | SCreateR dl =>
+      mkSS (ss_now s) (ss_wake s) (ss_last_ann s) (ss_interval s) (ss_writers s)
+           (ss_readers s ++ [mkSR (option_map dur_of_ns dl) [] [] 0])
   | SWrite w key ts =>
       let now := time_of_ns (ss_now s) in
       let t := match ts with Some x => time_of_ns x | None => now end in
       mkSS (ss_now s) (ss_wake s) (ss_last_ann s) (ss_interval s)
-           (update_nth w (write_writer now t key) (ss_writers s))
+           (update_nth w (write_writer now t key) (ss_writers s)) (ss_readers s)
+  | SRecv r keys =>
+      mkSS (ss_now s) (ss_wake s) (ss_last_ann s) (ss_interval s) (ss_writers s)
+           (update_nth r (recv_reader (time_of_ns (ss_now s)) keys) (ss_readers s))
   | _ => s
   end.
 
@@ -291,10 +343,10 @@ Fixpoint adv_loop (fuel : nat) (target : Z) (s : sstate) : sstate * list (Z * re
   | O => (s, [])
   | S f =>
       if ss_wake s <=? target then
-        let s0 := mkSS (ss_wake s) (ss_wake s) (ss_last_ann s) (ss_interval s) (ss_writers s) in
+        let s0 := mkSS (ss_wake s) (ss_wake s) (ss_last_ann s) (ss_interval s) (ss_writers s) (ss_readers s) in
         let '(s1, d) := body s0 in
         let '(s2, l) := adv_loop f target s1 in (s2, (ss_now s0, d) :: l)
-      else (mkSS target (ss_wake s) (ss_last_ann s) (ss_interval s) (ss_writers s), [])
+      else (mkSS target (ss_wake s) (ss_last_ann s) (ss_interval s) (ss_writers s) (ss_readers s), [])
   end.
 
 (* one scenario op; k = number of loop iterations the real worker ran during the op
@@ -305,11 +357,13 @@ Definition ADV_FUEL : nat := 4000.
 Definition reply_of (o : sop) (s : sstate) : Z :=
   match o with
   | SOdm w => sw_odm (nth w (ss_writers s) (mkSW None None [] [] 0))
+  | SScr r => if 0 <? sr_rdm (nth r (ss_readers s) (mkSR None [] [] 0)) then 1 else 0
   | _ => 0
   end.
 Definition step (s : sstate) (o : sop) (k : nat) : sstate * list (Z * res Z) * Z :=
   match o with
   | SAdv dt => (adv_loop ADV_FUEL (ss_now s + dt) s, 0)
+  | SRecv _ _ => (bodies k (apply_mail o s), 0)   (* the DATA datagram is the first one delivered *)
   | _ => let '(s1, l1) := bodies (pred k) s in
          let '(s2, l2) := bodies (Nat.min k 1) (apply_mail o s1) in (s2, l1 ++ l2, reply_of o s1)
   end.
@@ -317,7 +371,7 @@ Definition step (s : sstate) (o : sop) (k : nat) : sstate * list (Z * res Z) * Z
 (* after the prologue `P 0 ; T 0 t ; PUB 0` at t = 1 s: announced once, sleeping *)
 Definition init_state (interval_ns : Z) : sstate :=
   mkSS 1000000000 (1000000000 + Z.max 1 (Z.min POKE_NS interval_ns))
-       (Some (time_of_ns 1000000000)) (dur_of_ns interval_ns) [].
+       (Some (time_of_ns 1000000000)) (dur_of_ns interval_ns) [] [].
 
 (* ------------------------------------------------------------------ blocked write *)
 (* writer_methods.rs:382 expiration_time = now + max_blocking_time; writer_methods.rs:695
